@@ -290,7 +290,8 @@ def complex_order(chk):
     am = [e for e in r.events("lib-call", "eqsig.im.max_fa_period") if e.name in ("numpy.argmax",)]
     chk.ob("R-CPLX-ORDER", c + "[argmax operand]", "argmax over a real, even, non-negative amplitude", len(am) == 1 and
            am[0].args[0].dtype == "real" and is_nonneg(am[0].args[0].sign), derived="operand dtype %s" % (am[0].args[0].dtype if am else None),
-           loc=am[0].loc if am else r.fi.loc())
+           loc=am[0].loc if am else r.fi.loc(),
+           inconclusive=(not am) or (len(am) == 1 and (am[0].args[0].dtype == "top" or am[0].args[0].indef)))          # the operand's type was not derived
 
 
     # and it is the period OF that bin: exactly the reciprocal of the frequency selected by the argmax (coefficient 1)
